@@ -32,14 +32,14 @@ type KV struct {
 	V V
 }
 
-func VNil() V           { return V{K: "nil"} }
-func VStr(s string) V   { return V{K: "s", S: s} }
-func VInt(n int64) V    { return V{K: "i", IK: "int", I: n} }
-func VBool(b bool) V    { return V{K: "b", B: b} }
-func VF64(f float64) V  { return V{K: "f64", F: f} }
+func VNil() V             { return V{K: "nil"} }
+func VStr(s string) V     { return V{K: "s", S: s} }
+func VInt(n int64) V      { return V{K: "i", IK: "int", I: n} }
+func VBool(b bool) V      { return V{K: "b", B: b} }
+func VF64(f float64) V    { return V{K: "f64", F: f} }
 func VTime(t time.Time) V { return V{K: "t", T: t} }
-func VList(xs ...V) V   { return V{K: "l", L: xs} }
-func VObj(kvs ...KV) V  { return V{K: "o", O: kvs} }
+func VList(xs ...V) V     { return V{K: "l", L: xs} }
+func VObj(kvs ...KV) V    { return V{K: "o", O: kvs} }
 
 // fvalSx renders the exact value of a float as (m e) with odd m, or nan/+inf/-inf/-0.
 func fvalSx(f float64) *sx.Node {
